@@ -653,17 +653,14 @@ func (l *Lexer) GetLineText(t token.Token) string {
 
 	// Find the start of the line containing the given token
 	start := tokenStart.Char
-	if t.Type == token.EOF && start > 0 {
-		start--
+	if start > len(l.characters) {
+		start = len(l.characters)
 	}
 	for start > 0 && l.characters[start-1] != rune('\n') {
 		start--
 	}
 	// Find the end of that line
-	end := tokenStart.Char
-	if t.Type == token.EOF && end > 0 {
-		end--
-	}
+	end := start
 	for end < len(l.characters) && l.characters[end] != rune('\n') {
 		end++
 	}
